@@ -35,7 +35,8 @@ def _drive_attacks(args):
                 continue
             w = bc[b]['field_length']
             for pfx in ('-' + str(pl)[:1].rjust(pl - 1, '0'), '-' + '1'.rjust(pl - 1, '0'), '-' + '0' * (pl - 1), '+' + '0' * (pl - 1),
-                        ' ' * (pl - 1) + '0', '0' * pl):
+                        ' ' * (pl - 1) + '0', '0' * pl, (' -1' if pl == 3 else '-1'), (' -2' if pl == 3 else '-2'), ('\t-1' if pl == 3 else ' 0'),
+                        (' +1' if pl == 3 else '+1'), ('-1 ' if pl == 3 else '-0')):
                 if len(pfx) != pl:
                     continue
                 for hexb in (False, True):
@@ -46,7 +47,7 @@ def _drive_attacks(args):
                     head = '1144'.encode(codec) + (bm.hex().encode('ascii') if hexb else bytes(bm))
                     # the fixed field swallows the prefix when the prefix moves the pointer by zero or backwards
                     body = pfx + ''.join('ABCDEFGHJKLMNPQRSTUVWXYZ'[i % 24] for i in range(w))
-                    for cut in (0, pl, pl - 1, 1):
+                    for cut in (0, pl, pl - 1, 1, 2):
                         data = head + body[:len(body) - cut].encode(codec)
                         e, d = isoc.do_loads(data, codec, bc, hexb)
                         traces.append({'tid': tid, 'hex': hexb, 'events': [e],
